@@ -18,6 +18,6 @@ hprop.install(globals(), hprop.HistoryProperty(
           "a carrying vehicle, request expired while a vehicle was en route}; distinct = sha1(world, op log)"),
     assumptions=hprop.COMMON_ASSUMPTIONS,
     quick=(16, 120, 40), thorough=(16, 1200, 60),
-    instr_bias={"restate": True, "kinds": [1, 1, 1, 1, 1, 0, 2, 3, 5, 6, 7, 8, 4], "vclasses": [0, 1, 2, 3, 3, 9, 9, 8], "tclasses": [0, 0, 1, 2, 7, 7, 4, 6]},
+    instr_bias={"restate": True, "raw": True, "raw_kinds": [0, 0, 0, 2, 2, 5], "raw_tclasses": [0, 0, 1, 2, 7], "kinds": [1, 1, 1, 1, 1, 0, 2, 3, 5, 6, 7, 8, 4], "vclasses": [0, 1, 2, 3, 3, 9, 9, 8], "tclasses": [0, 0, 1, 2, 7, 7, 4, 6]},
 ))
 FLOORS = {"quick": {"flag:pickup": 30, "flag:cancel": 50}, "thorough": {"flag:pickup": 500}}
